@@ -2,6 +2,7 @@ import CuqiVerif.Model.Proto
 import CuqiVerif.Model.C07
 import CuqiVerif.Model.C07_psf
 import CuqiVerif.Model.C07_obj
+import CuqiVerif.Model.C07_repr
 open CuqiVerif CuqiVerif.Proto CuqiVerif.C07
 
 /-!
@@ -22,6 +23,9 @@ Line protocol of the C07 model (R = Rat).
   hist  <mb|fn> <A> <B|-> <gd> <gr> <ops>           -> the `lin` observation of the object after the history `ops`
         (`_` or `|`-separated `gm`, `sd=<g>`, `sr=<g>`, `T` = take and keep `self.T`; then `ktfwd/ktadj/ktgm` of the kept T are appended): fwd/adj/tfwd/tadj on the current geometries, `tgm` of a `T`
         taken now, then `gm` (the stored matrix if one was cached)
+
+  repr  <C> <keeps 0|1> <g0> <g1> <g2> <geq: 9 bits, row-major> <tagThrough: 3 bits> <gd> <gr> <plain|cu:h:ip> <is_par 0|1> <vec>
+        -> `<vec> <plain|cu>`: `Model._apply_func(C, range = g_gr, domain = g_gd, x, is_par)` (data of the result, wrapped or not)
 
   geometry tokens: `id:n` `imgC:r:c` `imgF:r:c` `step:n:s` `imgCs:r:c` (Continuous2D) `leaf:<sq|nsq>:pd:fd:<E>:<F>`
 -/
@@ -179,6 +183,23 @@ def stepPsf : List String → Option String
       some s!"psf={fmtM2 s Pt.e} fwd={fmtL (prod3 M.rng.F M.A M.dom.E)} adj={fmtL (prod3 M.dom.F M.B M.rng.E)}"
   | _ => none
 
+def bitAt (s : String) (i : Nat) : Bool := (s.toList.getD i '0') == '1'
+
+def stepRepr : List String → Option String
+  | ["repr", c, keeps, g0, g1, g2, geq, tt, gd, gr, tag, ispar, v] => do
+    let C ← parseLMat c; let G0 ← parseGeom g0; let G1 ← parseGeom g1; let G2 ← parseGeom g2
+    let gd ← gd.toNat?; let gr ← gr.toNat?; let x ← parseVec v
+    let tg ← (match tag.splitOn ":" with
+      | ["plain"] => some Tag.plain
+      | ["cu", h, ip] => (h.toNat?).map (fun h => Tag.cu h (ip == "1"))
+      | _ => none)
+    if geq.length ≠ 9 ∨ tt.length ≠ 3 ∨ gd > 2 ∨ gr > 2 then none else
+    let env : ReprEnv Q := { geomOf := fun i => if i = 0 then G0 else if i = 1 then G1 else G2,
+                             geq := fun a b => bitAt geq (3 * a + b), tagThrough := fun a => bitAt tt a }
+    let r := applyFunc env C (keeps == "1") gd gr { data := vecFn x, len := x.length, tag := tg } (ispar == "1")
+    some (fmtV r.len r.data ++ " " ++ (match r.tag with | .plain => "plain" | .cu _ _ => "cu"))
+  | _ => none
+
 def step : List String → String
   | ["geom", g] =>
     match parseGeom g with
@@ -225,6 +246,8 @@ def step : List String → String
     | _, _ => "bad-op"
   | l => match stepPsf l with
     | some o => o
-    | none => match stepHist l with | some o => o | none => "bad-op"
+    | none => match stepHist l with
+      | some o => o
+      | none => match stepRepr l with | some o => o | none => "bad-op"
 
 def main : IO Unit := runDriver step
